@@ -9,7 +9,53 @@ import struct
 
 
 class Reject(Exception):
-    pass
+    """the bytes are not a frame of the LLCP 1.3 frame format.
+    code   stable reason code (key of REASONS); pdu = type name of the (innermost) PDU being read; depth = AGF nesting"""
+    def __init__(self, msg, code=None, pdu=None):
+        Exception.__init__(self, msg)
+        self.code = code or "unclassified"
+        self.pdu = pdu
+        self.depth = 0
+
+    @property
+    def format_derived(self):
+        return REASONS.get(self.code, (False, ""))[0]
+
+
+# reason code -> (follows from the LLCP 1.3 frame format?, which rule).  Every rejection this reader makes is listed;
+# a reason marked False would be a matter of taste (leniency) and must not be turned into a verdict.  Things this
+# reader deliberately does NOT reject (and therefore never demands): reserved bits set in MIUX/RW/OPT/sequence
+# octets (masked), a parameter TLV of a type that does not belong into the PDU (skipped, any length), one trailing
+# octet behind the last TLV, surplus octets behind DISC/DM/FRMR/RR/RNR (reported as "extra"), a TLV occurring twice
+# (reported as "ambiguous"), ECPK/RN/SN values of any length, reserved PDU types 1011b/1111b (UNKNOWN).
+REASONS = {
+    "short-header": (True, "every PDU starts with the two header octets DSAP/PTYPE/SSAP"),
+    "tlv-overrun": (True, "the L octet counts the value octets of the TLV; they are part of the PDU that carries it"),
+    "tlv-length-VERSION": (True, "VERSION value is one octet"),
+    "tlv-length-MIUX": (True, "MIUX value is two octets"),
+    "tlv-length-WKS": (True, "WKS value is two octets"),
+    "tlv-length-LTO": (True, "LTO value is one octet"),
+    "tlv-length-RW": (True, "RW value is one octet"),
+    "tlv-length-OPT": (True, "OPT value is one octet"),
+    "tlv-length-SDREQ": (True, "SDREQ value is a TID octet followed by the service name"),
+    "tlv-length-SDRES": (True, "SDRES value is a TID octet and a SAP octet"),
+    "symm-address": (True, "SYMM has DSAP = SSAP = 0"),
+    "symm-payload": (True, "SYMM has no information field"),
+    "pax-address": (True, "PAX has DSAP = SSAP = 0"),
+    "agf-address": (True, "AGF has DSAP = SSAP = 0"),
+    "agf-length-field": (True, "every aggregated PDU is preceded by a two octet length"),
+    "agf-member-overrun": (True, "the length field counts octets of the AGF information field"),
+    "dm-short": (True, "DM carries the one octet disconnect reason"),
+    "frmr-short": (True, "FRMR carries a four octet information field"),
+    "snl-address": (True, "SNL has DSAP = SSAP = 1"),
+    "dps-address": (True, "DPS has DSAP = SSAP = 0"),
+    "sequence-missing": (True, "I, RR and RNR carry the sequence octet"),
+}
+TLV_NAMES = {1: "VERSION", 2: "MIUX", 3: "WKS", 4: "LTO", 5: "RW", 6: "SN", 7: "OPT", 8: "SDREQ", 9: "SDRES",
+             10: "ECPK", 11: "RN"}
+FIXED_TLV_LENGTH = {1: 1, 2: 2, 3: 2, 4: 1, 5: 1, 7: 1, 9: 2}
+# parameter TLV types that belong into each PDU type
+TLV_ALLOWED = {"PAX": (1, 2, 3, 4, 7), "CONNECT": (2, 5, 6), "CC": (2, 5), "SNL": (8, 9), "DPS": (10, 11)}
 
 
 NAMES = {0: "SYMM", 1: "PAX", 2: "AGF", 3: "UI", 4: "CONNECT", 5: "DISC", 6: "CC", 7: "DM", 8: "FRMR",
@@ -25,7 +71,7 @@ def tlvs(b):
     while len(b) - i >= 2:
         t, l = b[i], b[i + 1]
         if i + 2 + l > len(b):
-            raise Reject("TLV value exceeds the PDU")
+            raise Reject("TLV value exceeds the PDU", "tlv-overrun")
         out.append((t, bytes(b[i + 2:i + 2 + l])))
         i += 2 + l
     # a single trailing byte cannot form a TLV; the specification does not say what to do: lenient
@@ -34,14 +80,27 @@ def tlvs(b):
 
 def _fixed(v, n, name):
     if len(v) != n:
-        raise Reject("%s TLV length" % name)
+        raise Reject("%s TLV length" % name, "tlv-length-%s" % name)
     return int.from_bytes(v, "big")
 
 
 def decode(b, depth=0):
+    """canonical dict of the PDU in b; Reject (with reason code, PDU type and nesting depth) otherwise"""
     b = bytes(b)
     if len(b) < 2:
-        raise Reject("short")
+        e = Reject("short", "short-header", "?")
+        e.depth = depth
+        raise e
+    try:
+        return _decode(b, depth)
+    except Reject as e:
+        if e.pdu is None:
+            e.pdu = NAMES.get((b[0] << 2 | b[1] >> 6) & 15, "UNKNOWN")
+            e.depth = depth
+        raise
+
+
+def _decode(b, depth):
     hdr = (b[0] << 8) | b[1]
     dsap, ptype, ssap = hdr >> 10, (hdr >> 6) & 15, hdr & 63
     d = {"dsap": dsap, "ssap": ssap, "ambiguous": []}
@@ -54,7 +113,9 @@ def decode(b, depth=0):
 
     def params(allowed):
         seen = {}
-        for t, v in tlvs(body):
+        tl = tlvs(body)
+        d["trailing"] = len(body) - sum(2 + len(v) for t, v in tl)
+        for t, v in tl:
             if t in allowed:
                 if t in seen and t not in (T_SDREQ, T_SDRES):
                     d["ambiguous"].append(t)
@@ -63,12 +124,12 @@ def decode(b, depth=0):
 
     if name == "SYMM":
         if dsap or ssap:
-            raise Reject("SYMM addresses")
+            raise Reject("SYMM addresses", "symm-address")
         if body:
-            raise Reject("SYMM payload")
+            raise Reject("SYMM payload", "symm-payload")
     elif name == "PAX":
         if dsap or ssap:
-            raise Reject("PAX addresses")
+            raise Reject("PAX addresses", "pax-address")
         p = params((T_VERSION, T_MIUX, T_WKS, T_LTO, T_OPT))
         ver = _fixed(p[T_VERSION][-1], 1, "VERSION") if T_VERSION in p else None
         d["version"] = (ver >> 4, ver & 15) if ver is not None else (0, 0)
@@ -80,18 +141,18 @@ def decode(b, depth=0):
         d["dpc"] = (opt >> 2) & 1
         for t in (T_VERSION, T_MIUX, T_WKS, T_LTO, T_OPT):   # every occurrence must be well-formed
             for v in p.get(t, []):
-                _fixed(v, 2 if t in (T_MIUX, T_WKS) else 1, "PAX")
+                _fixed(v, 2 if t in (T_MIUX, T_WKS) else 1, TLV_NAMES[t])
     elif name == "AGF":
         if dsap or ssap:
-            raise Reject("AGF addresses")
+            raise Reject("AGF addresses", "agf-address")
         subs = []
         i = 0
         while i < len(body):
             if len(body) - i < 2:
-                raise Reject("AGF length field")
+                raise Reject("AGF length field", "agf-length-field")
             n = (body[i] << 8) | body[i + 1]
             if i + 2 + n > len(body):
-                raise Reject("AGF sub-PDU exceeds frame")
+                raise Reject("AGF sub-PDU exceeds frame", "agf-member-overrun")
             subs.append(decode(body[i + 2:i + 2 + n], depth + 1))
             i += 2 + n
         d["pdus"] = subs
@@ -109,46 +170,48 @@ def decode(b, depth=0):
         if name == "CONNECT":
             d["sn"] = (p[T_SN][-1] or None) if T_SN in p else None
     elif name == "DISC":
-        pass
+        d["extra"] = len(body)
     elif name == "DM":
         if len(body) < 1:
-            raise Reject("DM reason missing")
+            raise Reject("DM reason missing", "dm-short")
         d["reason"] = body[0]
         d["extra"] = len(body) - 1
     elif name == "FRMR":
         if len(body) < 4:
-            raise Reject("FRMR short")
+            raise Reject("FRMR short", "frmr-short")
         b0, b1, b2, b3 = body[:4]
         d.update(rej_flags=b0 >> 4, rej_ptype=b0 & 15, ns=b1 >> 4, nr=b1 & 15, vs=b2 >> 4, vr=b2 & 15,
                  vsa=b3 >> 4, vra=b3 & 15, extra=len(body) - 4)
     elif name == "SNL":
         if dsap != 1 or ssap != 1:
-            raise Reject("SNL addresses")
+            raise Reject("SNL addresses", "snl-address")
         req, res = [], []
-        for t, v in tlvs(body):
+        tl = tlvs(body)
+        d["trailing"] = len(body) - sum(2 + len(v) for t, v in tl)
+        for t, v in tl:
             if t == T_SDREQ:
                 if len(v) < 1:
-                    raise Reject("SDREQ without TID")
+                    raise Reject("SDREQ without TID", "tlv-length-SDREQ")
                 req.append((v[0], v[1:]))
             elif t == T_SDRES:
                 if len(v) != 2:
-                    raise Reject("SDRES length")
+                    raise Reject("SDRES length", "tlv-length-SDRES")
                 res.append((v[0], v[1]))
         d["sdreq"], d["sdres"] = req, res
         d["ambiguous"] = []
     elif name == "DPS":
         if dsap or ssap:
-            raise Reject("DPS addresses")
+            raise Reject("DPS addresses", "dps-address")
         p = params((T_ECPK, T_RN))
         d["ecpk"] = (p[T_ECPK][-1] or None) if T_ECPK in p else None
         d["rn"] = (p[T_RN][-1] or None) if T_RN in p else None
     elif name == "I":
         if len(body) < 1:
-            raise Reject("sequence field missing")
+            raise Reject("sequence field missing", "sequence-missing")
         d["ns"], d["nr"], d["data"] = body[0] >> 4, body[0] & 15, body[1:]
     elif name in ("RR", "RNR"):
         if len(body) < 1:
-            raise Reject("sequence field missing")
+            raise Reject("sequence field missing", "sequence-missing")
         d["nr"] = body[0] & 15
         d["extra"] = len(body) - 1
     return d
@@ -159,56 +222,81 @@ def _tlv(t, v):
     return bytes([t, len(v)]) + bytes(v)
 
 
-def encode(d):
+def parts(d):
+    """(header octets, list of (T, V) parameter TLVs or None, other information field octets) of the encoding of d"""
     name = d["t"]
     ptype = d["ptype"] if name == "UNKNOWN" else PTYPE[name]
-    out = struct.pack(">H", d["dsap"] << 10 | ptype << 6 | d["ssap"])
+    hdr = struct.pack(">H", d["dsap"] << 10 | ptype << 6 | d["ssap"])
+    tl, out = None, b""
     if name == "UNKNOWN":
-        out += d["payload"]
+        out = bytes(d["payload"])
     elif name == "PAX":
+        tl = []
         if d.get("version") is not None:
-            out += _tlv(T_VERSION, bytes([d["version"][0] << 4 | d["version"][1]]))
+            tl.append((T_VERSION, bytes([d["version"][0] << 4 | d["version"][1]])))
         if d.get("miu") is not None:
-            out += _tlv(T_MIUX, struct.pack(">H", d["miu"] - 128))
+            tl.append((T_MIUX, struct.pack(">H", d["miu"] - 128)))
         if d.get("wks") is not None:
-            out += _tlv(T_WKS, struct.pack(">H", d["wks"]))
+            tl.append((T_WKS, struct.pack(">H", d["wks"])))
         if d.get("lto") is not None:
-            out += _tlv(T_LTO, bytes([d["lto"] // 10]))
+            tl.append((T_LTO, bytes([d["lto"] // 10])))
         if d.get("lsc") is not None:
-            out += _tlv(T_OPT, bytes([d["lsc"] | d.get("dpc", 0) << 2]))
+            tl.append((T_OPT, bytes([d["lsc"] | d.get("dpc", 0) << 2])))
     elif name == "AGF":
         for s in d["pdus"]:
             e = encode(s)
             out += struct.pack(">H", len(e)) + e
     elif name == "UI":
-        out += d["data"]
+        out = bytes(d["data"])
     elif name in ("CONNECT", "CC"):
+        tl = []
         if d.get("miu") is not None and (d["miu"] != 128 or d.get("explicit")):
-            out += _tlv(T_MIUX, struct.pack(">H", d["miu"] - 128))
+            tl.append((T_MIUX, struct.pack(">H", d["miu"] - 128)))
         if d.get("rw") is not None and (d["rw"] != 1 or d.get("explicit")):
-            out += _tlv(T_RW, bytes([d["rw"]]))
+            tl.append((T_RW, bytes([d["rw"]])))
         if name == "CONNECT" and d.get("sn"):
-            out += _tlv(T_SN, d["sn"])
+            tl.append((T_SN, bytes(d["sn"])))
     elif name == "DM":
-        out += bytes([d["reason"]])
+        out = bytes([d["reason"]])
     elif name == "FRMR":
-        out += bytes([d["rej_flags"] << 4 | d["rej_ptype"], d["ns"] << 4 | d["nr"], d["vs"] << 4 | d["vr"],
-                      d["vsa"] << 4 | d["vra"]])
+        out = bytes([d["rej_flags"] << 4 | d["rej_ptype"], d["ns"] << 4 | d["nr"], d["vs"] << 4 | d["vr"],
+                     d["vsa"] << 4 | d["vra"]])
     elif name == "SNL":
+        tl = []
         for tid, sn in d["sdreq"]:
-            out += _tlv(T_SDREQ, bytes([tid]) + sn)
+            tl.append((T_SDREQ, bytes([tid]) + bytes(sn)))
         for tid, sap in d["sdres"]:
-            out += _tlv(T_SDRES, bytes([tid, sap]))
+            tl.append((T_SDRES, bytes([tid, sap])))
     elif name == "DPS":
+        tl = []
         if d.get("ecpk"):
-            out += _tlv(T_ECPK, d["ecpk"])
+            tl.append((T_ECPK, bytes(d["ecpk"])))
         if d.get("rn"):
-            out += _tlv(T_RN, d["rn"])
+            tl.append((T_RN, bytes(d["rn"])))
     elif name == "I":
-        out += bytes([d["ns"] << 4 | d["nr"]]) + d["data"]
+        out = bytes([d["ns"] << 4 | d["nr"]]) + bytes(d["data"])
     elif name in ("RR", "RNR"):
-        out += bytes([d["nr"]])
-    return out
+        out = bytes([d["nr"]])
+    return hdr, tl, out
+
+
+def encode(d):
+    hdr, tl, out = parts(d)
+    if tl is not None:
+        out = b"".join(_tlv(t, v) for t, v in tl)
+    return hdr + out
+
+
+def split(b):
+    """the same three parts read back from an encoding (Reject if the parameter list is not well formed)"""
+    b = bytes(b)
+    if len(b) < 2:
+        raise Reject("short", "short-header", "?")
+    name = NAMES.get((b[0] << 2 | b[1] >> 6) & 15, "UNKNOWN")
+    if name in TLV_ALLOWED:
+        tl = tlvs(b[2:])
+        return b[:2], tl, b[2 + sum(2 + len(v) for t, v in tl):]
+    return b[:2], None, b[2:]
 
 
 def flatten(d):
